@@ -1,6 +1,7 @@
 package main
 
 import (
+	"fmt"
 	"encoding/json"
 	"os"
 	"path/filepath"
@@ -27,7 +28,16 @@ func interpSrcFile(path, outDir string) error {
 	defer f.Close()
 	enc := json.NewEncoder(f)
 	for _, src := range srcs {
-		line, c, ok := interpLine(src, -1)
+		// a first line "#cancel=K" runs the program under a context that is cancelled at its K-th poll
+		cancelAt := -1
+		if strings.HasPrefix(src, "#cancel=") {
+			nl := strings.Index(src, "\n")
+			if nl > 0 {
+				fmt.Sscanf(src[len("#cancel="):nl], "%d", &cancelAt)
+				src = src[nl+1:]
+			}
+		}
+		line, c, ok := interpLine(src, cancelAt)
 		if !ok {
 			line = "interp (undecodable)"
 		}
